@@ -611,10 +611,37 @@ func c14R4(p *core.Prog, r *core.Report) {
 		return
 	}
 	name := p.FuncName(trav)
+	// the head requests on the target: the reference handed to ManifestHead derives from the second
+	// reference parameter of the traversal (the source's head, used by the fast check, is not one)
+	var tgtParam *ssa.Parameter
+	nRef := 0
+	for _, prm := range trav.Params {
+		if core.IsModNamed(prm.Type(), "types/ref", "Ref") {
+			nRef++
+			if nRef == 2 {
+				tgtParam = prm
+			}
+		}
+	}
 	var heads []*ssa.Call
 	core.Calls(trav, func(c ssa.CallInstruction) {
 		if cal := core.Callee(c); cal != nil && core.IsModMethod(cal, ".", "RegClient", "ManifestHead") {
-			if call, ok := c.(*ssa.Call); ok {
+			call, ok := c.(*ssa.Call)
+			if !ok {
+				return
+			}
+			onTarget := tgtParam == nil
+			for _, o := range core.Origins(core.CallArg(c, 2), core.SliceOpts{Through: func(tc *ssa.Call) []int {
+				if f := core.Callee(tc); f != nil && core.IsModNamed(core.CallArg(tc, 0).Type(), "types/ref", "Ref") && (f.Name() == "SetTag" || f.Name() == "SetDigest" || f.Name() == "AddDigest") {
+					return []int{0}
+				}
+				return nil
+			}}) {
+				if o.Kind == core.OParam && o.Param == tgtParam {
+					onTarget = true
+				}
+			}
+			if onTarget {
 				heads = append(heads, call)
 			}
 		}
@@ -654,7 +681,9 @@ func c14R4(p *core.Prog, r *core.Report) {
 			return to == edgeFor(!neq)
 		}
 		if bo, isB := cnd.(*ssa.BinOp); isB && (bo.Op == token.NEQ || bo.Op == token.EQL) && isDigestType(bo.X.Type()) {
-			if fromHead(bo.X) || fromHead(bo.Y) {
+			_, xConst := bo.X.(*ssa.Const)
+			_, yConst := bo.Y.(*ssa.Const)
+			if !xConst && !yConst && (fromHead(bo.X) || fromHead(bo.Y)) {
 				return to == edgeFor(bo.Op == token.NEQ)
 			}
 		}
